@@ -20,7 +20,18 @@ func fixedCases() []Case {
 	nilSettings := ops.Op{K: "pagesettings", B: []bool{true}}
 	sect := ops.Op{K: "addelem", I: []int{2}}
 	twoSections := &Base{Blocks: []Blk{{K: "p"}, {K: "psect"}, {K: "p"}}, BodySect: 1}
+	tbl := ops.Op{K: "table", I: []int{1, 1, 2000}}
 	return []Case{
+		// two documents of one process edited alternately (the second one created while the first has content), a
+		// handle of the one offered to the other, both saved at the end
+		{Ops: []ops.Op{para("A1"), para("A2"), para("B1"), para("A3"), tbl, {K: "rmhandle", S: []string{"peer"}, I: []int{0}}, {K: "rmelemat", I: []int{1}}, para("B2"), {K: "save"}},
+			On: []int{0, 0, 1, 0, 1, 0, 1, 1, 0}},
+		// three documents; one of them grows past 32 elements while the others stay short; runs of removals
+		{Ops: []ops.Op{para("A"), para("B"), para("C"), para("A"), {K: "pagebreak"}, {K: "rmparaat", I: []int{1}}, para("B"), {K: "rmelemat", I: []int{1}}, para("C"), {K: "rmhandle", S: []string{"copy"}, I: []int{3}}},
+			On: []int{0, 1, 2, 0, 1, 0, 1, 0, 2, 0}, Rep: []int{3, 2, 1, 33, 2, 9, 1, 30, 2, 1}},
+		// three documents opened from the same package, edited alternately
+		{Base: twoSections, PeerOpen: true, Ops: []ops.Op{para("x"), para("y"), rmLive(0), {K: "rmparaat", I: []int{1}}, para("z"), sect, {K: "rmhandle", S: []string{"peer"}, I: []int{2}}},
+			On: []int{0, 1, 1, 0, 2, 1, 0}, Saves: 1},
 		// rejected page-setting calls on a body without section settings, followed by index-based removals and a save
 		{Ops: []ops.Op{para("A"), badCustom, badOrient, nilSettings, {K: "docgridraw", S: []string{""}, I: []int{1, 1}}, {K: "margins", F: []float64{-1, 1, 1, 1}},
 			para("B"), para("C"), {K: "rmelemat", I: []int{2}}, {K: "rmelemat", I: []int{3}}, {K: "save"}}},
